@@ -3,7 +3,7 @@ import copy
 import itertools
 
 from .. import gen, report, wire
-from .common import viol, h, compact_case
+from .common import viol, h, compact_case, extra_levels
 
 ID = 'C12'
 CLAIM = ('the multi-connection GEX probe protocol runs against a stateful simulated server whose moduli policy is drawn from (thorough: enumerates) every subset of '
@@ -195,19 +195,15 @@ def run_case(case, ctx):
             elif size == 2048 and openssh and not any((r['min'], r['n'], r['max']) == (2048, 3072, 4096) and r['answer'] == 2048 and r['delivered'] for r in reqs):
                 out.append(viol('C12 OpenSSH fallback size 2048 reported although the follow-up 2048-4096 probe did not confirm it', 'alg=%s requests/answers=%r faults=%r' % (
                     alg, [((r['min'], r['n'], r['max']), r['answer'], r['delivered']) for r in reqs], case['faults'])))
-        # notes by threshold
+        # notes by threshold (levels of the notes beyond the static database entry; wording is not judged)
+        extra = extra_levels('kex', alg, notes) or []
         if size is not None:
-            has_small = any(t.startswith('using small') and 'modulus' in t for t in note_txt)
-            has_2048 = W2048 in note_txt
-            want_small, want_2048 = size < 2048, 2048 <= size < 3072
-            if has_small != want_small or has_2048 != want_2048:
+            want = ['fail'] if size < 2048 else (['warn'] if size < 3072 else [])
+            if extra != want:
                 out.append(viol('C12 size notes do not match the thresholds (size %s)' % ('<2048' if size < 2048 else ('2048..3071' if size < 3072 else '>=3072')),
-                                'alg=%s size=%d notes=%r' % (alg, size, notes)))
-            if want_small and (SMALL % size) not in note_txt:
-                out.append(viol('C12 small-modulus note names another size', 'alg=%s size=%d notes=%r' % (alg, size, note_txt)))
-        else:
-            if any((t.startswith('using small') and 'modulus' in t) for t in note_txt):
-                out.append(viol('C12 size note without a size', 'alg=%s notes=%r' % (alg, notes)))
+                                'alg=%s size=%d notes=%r\nextra note levels %r, expected %r' % (alg, size, notes, extra, want)))
+        elif extra:
+            out.append(viol('C12 size note without a size', 'alg=%s notes=%r' % (alg, notes)))
     if answered_any:
         shape = tuple((r['alg'][-4:], r['min'], r['n'], r['max'], r['answer']) for r in reqs_all)
         keys.append(h(case['kind'], tuple(case['profile']['gex']['sizes']), case['profile']['gex']['style'], tuple(a for a in case['profile']['kex'] if a in gen.GEX), case['bclass'], shape))
